@@ -305,4 +305,19 @@ def moduleIgnore (ign : List (Nat × Codes)) (first : Option FirstStmt) : Module
     else { wholeModule := false, errCodes := none, ignores := ign }
   | _, _ => { wholeModule := false, errCodes := none, ignores := ign }
 
+/-! ## skipped lines of statically unreachable blocks (`SemanticAnalyzerPreAnalysis.visit_block`) -/
+
+/-- an unreachable `Block`: `b.line`, `b.end_line` -/
+structure BlockSpan where
+  line : Nat
+  endLine : Nat
+deriving Repr, DecidableEq
+
+/-- `set(range(b.line, b.end_line + 1))` -/
+def blockLines (b : BlockSpan) : List Nat := List.range' b.line (b.endLine + 1 - b.line)
+
+/-- `file.skipped_lines`: the union over the (outermost) unreachable blocks — on these lines a `# type: ignore` is
+    never reported as unused -/
+def skippedLines (bs : List BlockSpan) : List Nat := bs.flatMap blockLines
+
 end ParseNorm
